@@ -36,7 +36,7 @@ impl Drop for S {
 }
 
 /// the uniform transaction `k` (see lean/Nervus/Model/SnapLTS.lean)
-fn do_tx(db: &Db, k: u32) -> String {
+pub fn do_tx(db: &Db, k: u32) -> String {
     let mut tx = db.begin_write();
     let r = (|| -> nervusdb_core::Result<()> {
         let l = tx.get_or_create_label("L")?;
@@ -59,7 +59,7 @@ fn set_str(it: impl Iterator<Item = u32>) -> String {
 }
 
 /// what the snapshot shows, over transactions 0..n
-fn view(s: &DbSnapshot, n: u32) -> String {
+pub fn view(s: &DbSnapshot, n: u32) -> String {
     let nodes = s.nodes().count();
     let labels = (0..n).filter(|k| s.resolve_node_labels(*k).map(|v| !v.is_empty()).unwrap_or(false)).count();
     let edges = set_str((0..n).filter(|k| s.neighbors(*k, None).next().is_some()));
